@@ -75,6 +75,12 @@ def Diagram.slice (d : Diagram) (start stop : Option Int) : Except Err Diagram :
   | .error e => .error e
   | .ok ls => .ok (Diagram.ofLayers ls)
 
+/-- `d[start:stop:-1]`. -/
+def Diagram.sliceRev (d : Diagram) (start stop : Option Int) : Except Err Diagram :=
+  match d.layers.sliceRev start stop with
+  | .error e => .error e
+  | .ok ls => .ok (Diagram.ofLayers ls)
+
 /-- `d[::-1]`. -/
 def Diagram.dagger (d : Diagram) : Diagram := Diagram.ofLayers d.layers.dag
 
